@@ -261,8 +261,13 @@ def run_jaxley_chain(module, topo, P, dt, solver, tag, timeout_ms=30000):
     N = topo.N
     X = [z3.Real(f"x{p}") for p in range(L.P)] + [z3.Real(f"xb{j}") for j in range(L.B)]
     ch = Chain(L, X, tag, timeout_ms)
-    for nm, ok in layout_obligations(L, topo):
+    lay = layout_obligations(L, topo)
+    for nm, ok in lay:
         ch.structural(nm, ok)
+    if not all(ok for _, ok in lay):
+        # the index layout the module hands to the solver does not describe the tree (e.g. two branch points for one parent):
+        # the refuted layout obligations are the verdict; the chain's view of the solver state is undefined on such a layout
+        return ch.results, {"refused": "", "reached": {}, "calls": {}}
     pos = [dt.e > 0]
     for k in ("radius", "length", "axial_resistivity", "capacitance"):
         pos += [s.e > 0 for s in P[k]]
